@@ -757,8 +757,12 @@ where
         }
         if self.ax == self.adapters.len() {
             let res = self.next_inner().await;
-            if res.is_err() {
-                self.state = StreamState::Error;
+            match res {
+                // Point (2) of the state diagram for direct streams; in an adapted stream the
+                // transition is made by the first call in the chain, below.
+                Ok(None) if self.adapters.is_empty() => self.state = StreamState::Done,
+                Err(_) => self.state = StreamState::Error,
+                _ => (),
             }
             return res;
         }
